@@ -33,12 +33,18 @@ def parseScalar (str : String) : Ty → Outcome Val
       | .panic c => .panic c
   | .basic _ _ => .ok (.ptr (.s str))        -- floats / complex: external, carried as text
   | .dur => .ok (.ptr (.s str))               -- time.ParseDuration: external
+  | .pdur =>                                  -- jsontypes.ParsingDuration: a named int64 like any other
+    match Parse.parseNumber .i64 str.toList with
+      | .ok v => .ok (.ptr (.i v))
+      | .err c => .err c
+      | .panic c => .panic c
   | _ => .err "cannot be translated"
 
 def scalarKindSupported : Ty → Bool
   | .basic (.int k) _ => k != .uintptr
   | .basic _ _ => true
   | .dur => true                              -- kind Int64
+  | .pdur => true                             -- kind Int64
   | _ => false
 
 def isPlainString : Ty → Bool
